@@ -12,6 +12,7 @@ import (
 	"github.com/bitcoin-sv/block-headers-service/database/sql"
 	"github.com/bitcoin-sv/block-headers-service/internal/chaincfg"
 	"github.com/bitcoin-sv/block-headers-service/internal/chaincfg/chainhash"
+	"github.com/bitcoin-sv/block-headers-service/metrics"
 	"github.com/bitcoin-sv/block-headers-service/notification"
 	"github.com/bitcoin-sv/block-headers-service/repository"
 	"github.com/bitcoin-sv/block-headers-service/service"
@@ -37,6 +38,10 @@ type StackOpts struct {
 	PreparedDb  string                                      // when set: prepared_db=true with this file
 	NoEngine    bool
 	WebhookCli  notification.WebhookTargetClient // nil = production client
+	// Metrics: metrics.enabled=true as cmd/main.go wires it (metrics.EnableMetrics + metrics.Register before the routes:
+	// request middleware, NoRoute marker, GET /metrics). EnableMetrics sets a package global that cannot be unset, so a
+	// runner that uses this builds and exercises its metrics-off stacks first.
+	Metrics bool
 }
 
 // Stack is the production stack: SQLite file + database.Init on the working
@@ -113,6 +118,14 @@ func NewStack(o StackOpts) (*Stack, error) {
 	chaincfg.MainNetParams.HeadersToIgnore = o.Ignore
 	log := zerolog.Nop()
 	gin.SetMode(gin.ReleaseMode)
+	if o.Metrics {
+		if cfg.Metrics != nil {
+			cfg.Metrics.Enabled = true
+		}
+		if _, on := metrics.Get(); !on {
+			metrics.EnableMetrics()
+		}
+	}
 	db, err := database.Init(cfg, &log)
 	if err != nil {
 		return nil, fmt.Errorf("database.Init: %w", err)
@@ -134,6 +147,9 @@ func NewStack(o StackOpts) (*Stack, error) {
 	s := &Stack{Cfg: cfg, DB: db, Store: store, Repo: repo, Svc: svc, File: o.File, Log: &log}
 	if !o.NoEngine {
 		server := httpserver.NewHTTPServer(cfg.HTTP, &log)
+		if o.Metrics {
+			server.ApplyConfiguration(metrics.Register)
+		}
 		server.ApplyConfiguration(endpoints.SetupRoutes(svc, cfg.HTTP))
 		server.ApplyConfiguration(func(e *gin.Engine) { s.Engine = e })
 	}
